@@ -199,7 +199,7 @@ class Run:
         return outs
 
     # ------------------------------------------------------------------ trace validation
-    def validate(self, module, cfg_text, traces, label, parallel=8, timeout=1800, constants=''):
+    def validate(self, module, cfg_text, traces, label, parallel=8, timeout=1800, constants='', heap='4g'):
         records = module.startswith('Rec_')     # record files: the state with position l judges line l itself
         """Run TLC trace validation (conformance + monitors) over each trace file."""
         t = time.time()
@@ -208,7 +208,7 @@ class Run:
             i, tr = args
             name = '%s_%d' % (label, i)
             rc, out = self.tlc(module, cfg_text, name, workers=1, env=dict(VERIF_TRACE=tr), timeout=timeout,
-                               heap='4g')
+                               heap=heap)
             return tr, rc, out
 
         with cf.ThreadPoolExecutor(max_workers=parallel) as ex:
